@@ -14,7 +14,7 @@
  *   F <exit> <hexout> <hexerr>      outcome otherwise
  *   NOISE <o|e> <salt> <mod>        append "noise=<h%mod>\n" to stdout/stderr
  *   DELAY <salt> <n> <ms>...        sleep ms[h % n] before answering
- *   FAULT <salt> <mod> <n> <cls>:<kind>...   kind: s(leep) p(spin) a(lloc) v(segv) k(ill) w(rapper with hanging child) w(rapper with hanging child)
+ *   FAULT <salt> <mod> <n> <cls>:<kind>...   kind: s(leep) t(sleep, SIGTERM ignored) p(spin) a(lloc) v(segv) k(ill) w(rapper with hanging child) w(rapper with hanging child)
  *   DIRECTIVE                       (behave <role> <exit> "<out>" "<err>") in the file wins
  * Hex strings may be "-" for the empty string.
  *
@@ -168,6 +168,8 @@ int main(int argc, char **argv) {
   }
   if (delay_ms > 0) usleep((useconds_t)delay_ms * 1000);
   switch (fault) {
+    case 't': signal(SIGTERM, SIG_IGN); /* a command that ignores SIGTERM (shell wrapper with trap '' TERM) */
+    /* fall through */
     case 's': for (;;) sleep(1000);
     case 'w': { /* wrapper script: the hanging solver is a child that inherits our pipes */
       pid_t c = fork();
